@@ -20,6 +20,8 @@ struct Params {
     sizes: Vec<u8>,
     two_slow: bool,
     bound_policy: u8,
+    /// hash key of the subscriber table (iteration order of the publish loop)
+    hash_key: u64,
 }
 
 fn publish_msg(i: usize, size: usize) -> Vec<Vec<u8>> {
@@ -27,6 +29,7 @@ fn publish_msg(i: usize, size: usize) -> Vec<Vec<u8>> {
 }
 
 fn scenario(pr: &Params) -> Verdict {
+    e3::set_hash_key(pr.hash_key);
     world::reset(world::WorldCfg { nested_env: false, yields: true, select: true, policy: pr.bound_policy });
     let ty = pr.ty;
     let n_slow = if pr.two_slow { 2 } else { 1 };
@@ -111,6 +114,7 @@ fn scenario(pr: &Params) -> Verdict {
         drop(sock);
     });
     let end = world::run(e3::HORIZON * 10);
+    e3::set_hash_key(0);
     let mut v = Verdict::default();
     v.truncated = end != world::RunEnd::Quiescent;
     let what = format!(
@@ -206,7 +210,7 @@ fn scenario(pr: &Params) -> Verdict {
 }
 
 fn pj(p: &Params) -> Value {
-    json!({"type": p.ty.name(), "modes": p.modes, "sizes": p.sizes, "two_slow": p.two_slow, "policy": p.bound_policy})
+    json!({"type": p.ty.name(), "modes": p.modes, "sizes": p.sizes, "two_slow": p.two_slow, "policy": p.bound_policy, "hash_key": p.hash_key})
 }
 
 fn pf(v: &Value) -> Option<Params> {
@@ -217,6 +221,7 @@ fn pf(v: &Value) -> Option<Params> {
         sizes: arr(&v["sizes"]),
         two_slow: v["two_slow"].as_bool()?,
         bound_policy: v["policy"].as_u64().unwrap_or(0) as u8,
+        hash_key: v["hash_key"].as_u64().unwrap_or(0),
     })
 }
 
@@ -253,7 +258,7 @@ pub fn run(tier: Tier, replay: Option<String>) -> i32 {
     seqs.sort();
     seqs.dedup();
     let profiles: Vec<Vec<u8>> = match tier {
-        Tier::Quick => vec![vec![1, 2, 5, 1, 3, 4], vec![5, 5, 5, 5, 5, 5]],
+        Tier::Quick => vec![vec![1, 2, 5, 1, 3, 4], vec![5, 5, 5, 5, 5, 5], vec![3, 0, 4, 0, 5, 1], vec![4, 4, 4, 3, 3, 3]],
         Tier::Thorough => vec![
             vec![1, 2, 5, 1, 3, 4],
             vec![5, 5, 5, 5, 5, 5],
@@ -271,10 +276,14 @@ pub fn run(tier: Tier, replay: Option<String>) -> i32 {
                 if ty == Ty::XPub && tier == Tier::Quick && s.iter().filter(|m| **m != 0).count() > 3 && prof[0] != 5 {
                     continue;
                 }
-                let pr = Params { ty, modes: s.clone(), sizes: prof.clone(), two_slow: false, bound_policy: 0 };
-                let pr2 = pr.clone();
-                n += 1;
-                jobs.push(e3::job(format!("C12/{}/{:?}/{:?}", ty.name(), prof, s), pj(&pr), 0, 1000, move || scenario(&pr2)));
+                // the iteration order of the subscriber table matters once a subscriber is removed mid-loop
+                let keys: Vec<u64> = if s.contains(&3) { vec![0, 1, 2] } else { vec![0] };
+                for hash_key in keys {
+                    let pr = Params { ty, modes: s.clone(), sizes: prof.clone(), two_slow: false, bound_policy: 0, hash_key };
+                    let pr2 = pr.clone();
+                    n += 1;
+                    jobs.push(e3::job(format!("C12/{}/{:?}/{:?}/key{}", ty.name(), prof, s, hash_key), pj(&pr), 0, 1000, move || scenario(&pr2)));
+                }
             }
         }
         // schedule deviations and two slow subscribers on a subset: sequences of length 6 with at most 2 distinct modes
@@ -288,7 +297,7 @@ pub fn run(tier: Tier, replay: Option<String>) -> i32 {
                 if !two && tier == Tier::Quick {
                     continue;
                 }
-                let pr = Params { ty, modes: s.clone(), sizes: profiles[0].clone(), two_slow: two, bound_policy: 0 };
+                let pr = Params { ty, modes: s.clone(), sizes: profiles[0].clone(), two_slow: two, bound_policy: 0, hash_key: 0 };
                 let pr2 = pr.clone();
                 n += 1;
                 jobs.push(e3::job(format!("C12/{}/dev/{:?}/{}", ty.name(), s, two), pj(&pr), 1, 5000, move || scenario(&pr2)));
